@@ -434,6 +434,10 @@ CORPUS = [
     'F:7070:2c:E|$f3fb999999999999a',                 # D8: 0.1 from a File
     'S:::G|Nd/d:-5',                                  # F6: %d into a long zero-extends
     'F:::G|Ni/i:-2147483648 L2c Nd/d:-1',             # F6
+    'F:::G|$s6162 L20 N5li/li:42',                    # D22: File: the literal " " eats the padding of %5li, position short
+    'F:::G|$i7 L2c20 N8.3f/lf:400921fb54442d18',      # D22
+    'S:::G|$i5 L25 $i7',                              # D23: "%%" advanced the position by 2
+    'F:6d::G|L2025 N+li/li:10000000000',              # D23 (shrunk replay)
     'S:7070:2c:G|$i123 L2c20 $s610a62 L3b $f405edd2f1a9fbe77',
     'S:::G|$i-9223372036854775808 L20 $i9223372036854775807',
     'S:::G|$s070809' + '0a0b0c0d5c27223f' + ' L2c $s ' + 'L2c $sff80fe25',
